@@ -48,6 +48,11 @@ def variants(rng, base, tier, k):
                         ops.append(("write", e[1], e[2]))
                 elif e[0] == "file" and r < 0.45 and any(e[1].startswith(a[0] + b"/") for a in dart):
                     ops.append(("write", e[1], e[2]))              # added later
+                elif e[0] == "file" and r < 0.6 and any(e[1].startswith(a[0] + b"/") for a in dart):
+                    # committed under another name first, then renamed as it is (after a link commit: the link is renamed,
+                    # the number of entries stays the same and no byte is read again)
+                    init.append(("file", e[1] + b".old", e[2]))
+                    ops.append(("mv", e[1] + b".old", e[1]))
                 else:
                     init.append(e)
             if dart and rng.random() < 0.6:
